@@ -117,7 +117,7 @@ def _run(ctx, chk, prog, tag):
         if uw:
             chk.ob("C17.no-global-write", f.name + " (store through pointer of unknown provenance)", False,
                    "%s:%d" % (f.file, f.line), fn=f.name, key=f.name + ":unknown", detail=str(uw))
-    chk.floor("C17.no-global-write", "functions", nfun, 200)
+    chk.floor("C17.no-global-write", "functions", nfun, 120)
 
     seen = set()
     for sym, kind, where, fname in rules.ext_refs(prog, lib_only=True):
